@@ -149,7 +149,7 @@ func checkObs(c *Case, ps *paramSet, st *static, m *model, pr *probe, nativeQ *b
 		if ex := m.pool[idx].exact; ex != nil && val.Cmp(ex) != 0 {
 			return fmt.Sprintf("%s: documented representative is %s, limbs %v recompose to %s", desc(idx), ex, limbs, val)
 		}
-		if meta.OK && !m.wideIn[idx] {
+		if meta.OK && !m.wideIn[idx] && !m.either {
 			for j, l := range limbs {
 				if l.BitLen() > int(ps.W)+int(meta.Of) {
 					return fmt.Sprintf("%s: limb %d = %s has %d bits > BitsPerLimb %d + tracked overflow %d (bookkeeping invariant)",
